@@ -97,7 +97,7 @@ func Glob(pattern string) ([]string, error) {
 					} else {
 						p += name
 					}
-					if _, err := os.Lstat(p); err == nil {
+					if _, err := os.Lstat(p + sep); err == nil {
 						matches = append(matches, p+sep)
 					}
 				}
@@ -111,6 +111,11 @@ func Glob(pattern string) ([]string, error) {
 					err := glob(p, rx, func(name string) {
 						if p != "." {
 							name = p + name
+						}
+						if sep != "" {
+							if _, err := os.Lstat(name + sep); err != nil {
+								return
+							}
 						}
 						matches = append(matches, name+sep)
 					})
